@@ -243,6 +243,37 @@ def c08_cases(rng, thorough):
     return cs, expect
 
 
+def calc_c_text_vs_real(rep, exe, rng, n):
+    """Gen/Cir.lean's Avtp_Vss_CalcVssPathLength (dedicated getter, Vss_ReadBe16, Avtp_BeToCpu16 called by
+    name) run by the Lean C semantics vs the compiled function: every address mode, random headers and
+    length prefixes."""
+    import cirrun
+    gen = pipeline.translate()
+    if gen.get("failed") or gen.get("cir", {}).get("failed"):
+        return
+    ok, log = common.lake_build(["O1722.Gen.Cir", "O1722.Gen.Data", "O1722.CSem.Eval"])
+    if not ok:
+        return
+    mc, cs = [], common.Cases()
+    for k in range(n):
+        buf = bytearray(rng.getrandbits(8) for _ in range(16))
+        buf[2] = (buf[2] & 0xE7) | ((k % 4) << 3)          # addr_mode: all four codes
+        mc.append(("Avtp_Vss_CalcVssPathLength", [65536], list(buf), [], "src/avtp/acf/custom/Vss.c"))
+        cs.add(["buf a " + hexs(buf), "vss_calc a 0"])
+    res = cirrun.mem_cases(mc, "cirrun_calc")
+    rcode, c_out, err = common.run_c(exe, cs.render())
+    got = common.split_cases(c_out)
+    nbad = 0
+    for k in range(n):
+        if got.get(k, [])[:1] != ["v " + res[k][0]]:
+            nbad += 1
+            rep.violation("Vss:calc:c-text-vs-real:mode=%d" % (k % 4),
+                          {"kind": "serialised-C-text-under-the-Lean-C-semantics-differs-from-the-compiled-code", "ops": cs.cases[k],
+                           "observed_real_code": got.get(k), "c_text_under_CSem": list(res[k])})
+    rep.cov["c_text_vs_real"] = {"cases": n, "disagreements": nbad,
+                                 "what": "Gen/Cir.lean (Avtp_Vss_CalcVssPathLength and everything it calls) interpreted by CSem/Eval.lean vs the compiled function"}
+
+
 def pad_c_text_vs_real(rep, exe, cs, expect, n):
     """Gen/Cir.lean's Avtp_Vss_Pad (and what it calls) run by the Lean C semantics vs the reference
     result computed in c09_cases (which the compiled code is compared with in the same run)."""
@@ -534,6 +565,8 @@ def check(rep, prop, tier, seed):
         pad_c_text_vs_real(rep, exe, cs, expect, 300 if thorough else 80)
     if prop in ("C07", "C08"):
         cbmc_scalars(rep, prop, thorough)
+    if prop == "C08":
+        calc_c_text_vs_real(rep, exe, rng, 200 if thorough else 60)
     if prop == "C10":
         cbmc_strarr(rep, thorough)
     pipeline.report_proof_failures(rep, prop, res, diff_groups)
